@@ -16,6 +16,7 @@ use proptest::prelude::*;
 use serde::{Deserialize, Serialize};
 use sqlparser::dialect::PostgreSqlDialect;
 use sqlparser::parser::Parser;
+use std::time::Duration;
 
 pub fn check(tier: Tier, seed: u64, replay: (Option<&str>, Option<&str>)) -> Vec<PartReport> {
     crate::run_parts!(tier, seed, replay, [LibPart, WirePart])
@@ -217,6 +218,9 @@ pub enum Msg {
     Batch(Vec<Item>),
     /// the intercept rule's query in some spelling
     Intercept(u8),
+    /// Parse/Bind/Execute of these statements WITHOUT Sync, then a harmless simple query, then the Sync (a message order
+    /// real drivers avoid, but any client can produce it); ends the session
+    BatchThenQuery(Vec<Item>),
 }
 
 #[derive(Clone, Debug, Serialize, Deserialize)]
@@ -241,7 +245,7 @@ impl Part for WirePart {
         true
     }
     fn rule(&self) -> String {
-        "sessions of 1..6 messages (simple queries of 1..3 statements, Parse/Bind/Execute batches of 1..3 statements, the intercept rule's query in 4 spellings), optionally inside BEGIN..ROLLBACK, transaction or session mode, plugins enabled or disabled, against the real binary; oracle: a message containing a must-deny statement is answered with ErrorResponse and none of its statement tags is ever received by a backend; the intercepted query returns exactly the configured rows and is not forwarded; with plugins disabled every tag arrives. Non-trivial = must-deny statement not first in its message, inside a transaction, or in an extended batch".into()
+        "sessions of 1..6 messages (simple queries of 1..3 statements, Parse/Bind/Execute batches of 1..3 statements, the intercept rule's query in 4 spellings, a Parse/Bind/Execute batch whose Sync is preceded by a harmless simple query), optionally inside BEGIN..ROLLBACK, transaction or session mode, plugins enabled or disabled, against the real binary; oracle: a message containing a must-deny statement is answered with ErrorResponse and none of its statement tags is ever received by a backend; the intercepted query returns exactly the configured rows and is not forwarded; with plugins disabled every tag arrives. Non-trivial = must-deny statement not first in its message, inside a transaction, or in an extended batch".into()
     }
     fn cases(&self, tier: Tier) -> u64 {
         tier.pick(1_200, 16_000)
@@ -251,6 +255,7 @@ impl Part for WirePart {
             5 => prop::collection::vec(item_strategy(), 1..4).prop_map(Msg::Q),
             4 => prop::collection::vec(item_strategy(), 1..4).prop_map(Msg::Batch),
             1 => (0u8..4).prop_map(Msg::Intercept),
+            1 => prop::collection::vec(item_strategy(), 1..3).prop_map(Msg::BatchThenQuery),
         ];
         (prop::bool::weighted(0.85), any::<bool>(), prop::bool::weighted(0.25), prop::collection::vec(msg, 1..7))
             .prop_map(|(enabled, in_txn, session_mode, msgs)| WireCase { enabled, in_txn, session_mode, msgs })
@@ -345,6 +350,48 @@ async fn run_wire(c: &WireCase, ctx: &mut WorkerCtx) -> Outcome {
                     o.fail("unmatched-query-not-forwarded", format!("{:?} (plugins enabled={}) was not forwarded", sql, c.enabled));
                     break;
                 }
+            }
+            Msg::BatchThenQuery(items) => {
+                let mut tags = vec![];
+                let mut sqls = vec![];
+                let mut b = vec![];
+                for it in items {
+                    let t = cli.tag();
+                    tags.push(t);
+                    let sql = format!("{} {}", t.render(), it.sql());
+                    b.extend_from_slice(&proto::parse("", &sql, &[]));
+                    b.extend_from_slice(&proto::bind("", "", &[], &[], &[]));
+                    b.extend_from_slice(&proto::execute("", 0));
+                    sqls.push(sql);
+                }
+                let accepted = sqls.iter().all(|s| Parser::parse_sql(&PostgreSqlDialect {}, s).is_ok());
+                let tq = cli.tag();
+                b.extend_from_slice(&proto::query(&format!("{} SELECT 1 AS harmless", tq.render())));
+                cli.send(&b).await;
+                let _ = cli.read_until_ready(Duration::from_millis(1500)).await;
+                if cli.is_open() {
+                    cli.send(&proto::sync()).await;
+                    let _ = cli.read_until_ready(Duration::from_millis(700)).await;
+                }
+                tokio::time::sleep(Duration::from_millis(20)).await;
+                if accepted && c.enabled {
+                    if let Some(k) = items.iter().position(|i| i.must_deny()) {
+                        o.nontrivial = true;
+                        o.label("query_inside_unsynced_batch");
+                        if let Item::Table { position, spelling: sp } = &items[k] {
+                            for t in &tags {
+                                if tag_seen(&env, *t) {
+                                    o.fail(
+                                        &format!("denied-statement-reached-server:pos={}:sp={}:batch-then-query", position_name(*position), spelling_name(*sp)),
+                                        format!("Parse/Bind/Execute of {:?}, a simple query, then Sync: tag {} of the batch with a statement on the listed table was received by a backend", sqls, t.short()),
+                                    );
+                                    break 'msgs;
+                                }
+                            }
+                        }
+                    }
+                }
+                break 'msgs;
             }
             Msg::Q(items) | Msg::Batch(items) => {
                 let is_batch = matches!(msg, Msg::Batch(_));
